@@ -174,7 +174,7 @@ Definition dispatch (x : sx) : sx :=
   | SL [SS t; SS n] =>
       if is_tag "universe" t then
         let pu := fun U => SL (map (fun cf => SL [p_cfg cf; sx_bool (racy cf)]) U) in
-        if is_tag "u21" n then pu U21 else if is_tag "u22" n then pu U22 else if is_tag "u31" n then pu U31 else if is_tag "u2112" n then pu U2112 else sx_err "universe"
+        if is_tag "u21" n then pu U21 else if is_tag "u22" n then pu U22 else if is_tag "u31" n then pu U31 else if is_tag "u2112" n then pu U2112 else if is_tag "u31e" n then pu U31e else sx_err "universe"
       else if is_tag "witness" t then
         if is_tag "k1torn" n then SL [sx_w "w"; p_cfg cfg_get_upd; SL (map p_nat sch_k1_torn)]
         else if is_tag "k1acct" n then SL [sx_w "w"; p_cfg cfg_get_upd; SL (map p_nat sch_k1_acct)]
